@@ -42,6 +42,22 @@ func init() {
 	reg("(encoding/binary.bigEndian).PutUint32", put(4))
 	reg("(encoding/binary.bigEndian).PutUint64", put(8))
 
+	// golang.org/x/net/bpf.Assemble (x/net bpf/asm.go): encodes each instruction in place — on success the raw program has
+	// exactly as many instructions as the input; no tracked state is touched (assumed)
+	reg("golang.org/x/net/bpf.Assemble", func(c *callCtx) Val {
+		ex := c.ex
+		in := c.args[0]
+		res := c.fn.Signature.Results()
+		raw := ex.freshVal(res.At(0).Type(), c.st, "bpfraw")
+		e := ex.freshVal(errorT(), c.st, "bpferr")
+		ex.assumeExternalError(e)
+		if ex.pure == 0 {
+			ex.assume(imp(eq(e.L[0], "0"), and(eq(raw.L[2], in.L[2]), not(eq(raw.L[0], "0")))))
+			ex.assume(imp(not(eq(e.L[0], "0")), eq(raw.L[0], "0")))
+		}
+		ex.used["library model: bpf.Assemble returns a program of the input's length or an error (x/net bpf/asm.go)"] = true
+		return tupleVal(res, []Val{raw, e})
+	})
 	reg("github.com/google/gopacket.DecodeFeedback.SetTruncated", func(c *callCtx) Val { return Val{} })
 	layerTypeOf := func(c *callCtx) Val {
 		// LayerType() of a network layer held in an interface: determined by its dynamic type
